@@ -103,6 +103,59 @@ impl Elem for Wrapped {
     }
 }
 
+/// A 12-byte element: a width that is not a power of two and does not divide the 16 KiB page
+/// (1365 values per page) nor the 512 KiB I/O buffer. Byte arrays take the bytes, lz4 and zstd
+/// formats; arithmetic is bytewise wrapping addition, order is lexicographic.
+#[derive(Debug, Clone, Copy, PartialEq, PartialOrd, vecdb::Bytes)]
+pub struct B12(pub [u8; 12]);
+
+impl std::ops::AddAssign for B12 {
+    fn add_assign(&mut self, rhs: Self) {
+        for (a, b) in self.0.iter_mut().zip(rhs.0.iter()) {
+            *a = a.wrapping_add(*b);
+        }
+    }
+}
+
+impl From<u8> for B12 {
+    fn from(v: u8) -> Self {
+        let mut a = [0u8; 12];
+        a[0] = v;
+        B12(a)
+    }
+}
+
+impl Elem for B12 {
+    const NAME: &'static str = "b12";
+    fn from_seed(x: u64) -> Self {
+        match x % 8 {
+            0 => B12([0; 12]),
+            1 => B12([0xff; 12]),
+            _ => {
+                let mut a = [0u8; 12];
+                a[..8].copy_from_slice(&mix(x, 21).to_le_bytes());
+                a[8..].copy_from_slice(&mix(x, 22).to_le_bytes()[..4]);
+                B12(a)
+            }
+        }
+    }
+    fn bits(&self) -> u128 {
+        let mut b = [0u8; 16];
+        b[..12].copy_from_slice(&self.0);
+        u128::from_le_bytes(b)
+    }
+    fn from_bits128(b: u128) -> Self {
+        let mut a = [0u8; 12];
+        a.copy_from_slice(&b.to_le_bytes()[..12]);
+        B12(a)
+    }
+    fn wadd(a: Self, b: Self) -> Self {
+        let mut r = a;
+        r += b;
+        r
+    }
+}
+
 const F64_SPECIALS: &[u64] = &[
     0x0000_0000_0000_0000, // +0
     0x8000_0000_0000_0000, // -0
